@@ -1,3 +1,6 @@
 import LowProofs.Lemmas.Bits
 import LowProofs.Lemmas.Count
+import LowProofs.Lemmas.SumBits
 import LowProofs.Props.C01
+import LowProofs.Props.C18
+import LowProofs.Props.C20
